@@ -150,7 +150,10 @@ SameScalar(a, b) ==      \* "accept" | "reject" | "unspec"
   ELSE CASE a.t = "null" -> "accept"
          [] a.t = "bool" -> B3(a.bv = b.bv)
          [] a.t = "str"  -> B3(a.c = b.c)
-         [] a.t = "num"  -> IF a.b = b.b THEN "accept" ELSE IF N!NF(a.b) = N!NF(b.b) THEN "unspec" ELSE "reject"
+         \* numbers are equal when their values are (C10); the same value written once as an integer and once with a fraction
+         \* part (2 and 2.0) is pinned as different by the repository's suite: no verdict
+         [] a.t = "num"  -> IF a.b = b.b THEN "accept" ELSE IF N!NF(a.b) # N!NF(b.b) THEN "reject"
+                            ELSE IF NumKind(a.b) = NumKind(b.b) /\ NumKind(a.b) # "flt?" THEN "accept" ELSE "unspec"
          [] OTHER -> "reject"
 Member3(v, items) ==
   LET vs == {SameScalar(v, items[i]) : i \in DOMAIN items} IN
